@@ -6,6 +6,7 @@ import (
 	"bufio"
 	"fmt"
 	"io"
+	"os"
 	"os/exec"
 	"strconv"
 	"strings"
@@ -327,6 +328,13 @@ func (s *Solver) Check(lits []*Term, vars []*Term, wantModel bool, assertion boo
 		if err == nil && (r2 == "sat" || r2 == "unsat") && r2 != res {
 			panic(engineError{fmt.Sprintf("SOLVER-DISAGREEMENT: %s says %s, cvc5 says %s", s.primary.name, res, r2)})
 		}
+	}
+	if d := time.Since(t0); d > 2*time.Second && os.Getenv("ZSYM_SLOWLOG") != "" {
+		last := ""
+		if len(lits) > 0 {
+			last = lits[len(lits)-1].String()
+		}
+		fmt.Fprintf(os.Stderr, "SLOW-QUERY %.1fs res=%s lits=%d last=%s\n", d.Seconds(), res, len(lits), last)
 	}
 	switch res {
 	case "sat":
